@@ -13,3 +13,10 @@ add("C21", "exhaustive enumeration vs integer-only calendar reference",
 add("C01", "stateful property-based testing: generated operation histories vs recorded snapshots (undo walk-back)",
     "Generated histories of UserModel operations (all recording op kinds) are executed on the real engine; the observable snapshot (contents, typed values, formatted text, resolved styles, row/column sizes/hidden/styles run-length normalised, sheets, frozen panes, grid lines, defined names, named styles, links, conditional formats with resolved dxf, theme, workbook name/locale/timezone) is recorded after every operation that grew the undo stack, then every undo step is compared against the recorded snapshot and stack lengths. Exploration only; while known findings are listed the generator is restricted (profiles Edit/Structural, run-time guards) and the restrictions are counted in the evidence.",
     "Trusted: snapshot reader (public getters + Model::workbook for enumeration), hook H2 (history lengths). Defined-name formulas compared case-insensitively; sizes to 10 significant digits; view state excluded.")
+
+add("C02", "stateful property-based testing: random undo/redo/new-op walks vs list-and-cursor reference model",
+    "A generated prefix of operations followed by a random walk over undo, redo and new operations; the reference model is a list of recorded snapshots with a cursor (a new operation truncates after the cursor). After every step the observable snapshot must equal list[cursor] and can_undo/can_redo and the undo/redo stack lengths must match the cursor. Undo mismatches are attributed to C01, redo/truncation/flag mismatches to C02.",
+    "Trusted: snapshot reader, hook H2. Restricted generator profiles while known findings are listed (shared with C01).")
+add("C04", "fault-argument enumeration + property-based prefixes: failed call must leave snapshot and history unchanged",
+    "A finite table of (operation kind, invalid-argument class) pairs covering every class named in the property (nonexistent sheet, out-of-grid coordinates, ranges crossing the grid edge, non-positive counts, negative sizes, invalid timezone/locale/colour/style path/value, duplicate/invalid sheet, defined and style names, edits splitting an array formula, inserts pushing data off the grid, deleting the only sheet, unknown conditional-format index/range) is enumerated completely after fixed prefixes and sampled after generated histories with a non-empty redo list. Whenever the call returns Err the snapshot, can_undo/can_redo and stack lengths must be unchanged and the next undo must behave as in the same history without the failed call.",
+    "Trusted: snapshot reader, hook H2. Only calls that return Err are asserted (accepted or panicking calls are labelled). View state excluded.")
